@@ -58,6 +58,9 @@ class Item:
 
     def text(self, name, path="derive_more::"):
         ds = ", ".join([path + d for d in self.derives] + list(self.std_derives))
+        if "@DERIVE@" in self.src:
+            # the item is produced by a `macro_rules!` macro of its own: the derive attribute sits inside the macro body
+            return self.src.replace("@DERIVE@", "#[derive(%s)]" % ds).replace("@N@", name)
         return ("#[derive(%s)]\n" % ds) + self.src.replace("@N@", name)
 
 
@@ -503,6 +506,30 @@ def cross_items():
             yield Item(["Unwrap", "TryUnwrap"], enum_src(g, ["Alpha(%s)" % pay[0], "Beta(u16, %s)" % pay[-1], "Unit"], item_attrs="#[unwrap(%s)]\n#[try_unwrap(%s)]\n" % (sel, sel)), ("accessors", "tuple+unit", g.key, "plain", sel))
         vs = ["Id(u32)", "Name(%s)" % pay[0], "Count(u32)", "Pair(u8, u8)", "Unit", "Other(u8, u8)"]
         yield Item(["TryInto"], enum_src(g, vs), ("try_into", "non-adjacent-groups", g.key, "plain", "-"))
+
+
+def macro_items():
+    """Items generated by `macro_rules!` macros: field types, listed types, literals and discriminants arrive as
+    `$t:ty` / `$l:literal` / `$e:expr` fragments, i.e. wrapped in invisible groups (syn: `Type::Group`, `Expr::Group`).
+    Only usable through the real compiler (the in-process harness cannot produce such token streams from text)."""
+    def m(derives, params, body, call, tag, std=()):
+        src = "macro_rules! @N@_m { (%s) => { %s } }\n@N@_m!(%s);" % (params, body, call)
+        return Item(derives, src, ("macro", tag, "none", "plain", "-"), std_derives=list(std))
+    yield m(["From", "Into", "Constructor", "Display", "Debug", "Deref", "DerefMut", "AsRef", "AsMut", "Add", "Sub", "Mul", "Not", "Neg", "AddAssign", "MulAssign", "FromStr", "Sum"],
+            "$t:ty", "@DERIVE@ pub struct @N@(pub $t);", "i32", "ty-newtype")
+    yield m(["From", "Into", "Constructor", "Debug", "Add", "Not", "AddAssign"], "$t:ty, $u:ty", "@DERIVE@ pub struct @N@ { pub a: $t, pub b: $u }", "i32, u8", "ty-named2")
+    yield m(["From", "TryInto", "IsVariant", "Unwrap", "TryUnwrap", "Display", "Debug"], "$t:ty, $u:ty", "@DERIVE@ pub enum @N@ { A($t), B($u), C }", "i32, u8", "ty-enum")
+    yield m(["Debug", "From", "Constructor"], "$t:ty", "@DERIVE@ pub struct @N@<T>(pub $t, pub T);", "::std::vec::Vec<T>", "ty-generic-fragment")
+    yield m(["Error", "Display", "Debug"], "$t:ty", "@DERIVE@ #[display(\"e\")] pub struct @N@ { source: $t }", "::std::fmt::Error", "ty-error-source")
+    yield m(["Error", "Display", "Debug"], "$t:ty", "@DERIVE@ #[display(\"e\")] pub struct @N@($t);", "::std::fmt::Error", "ty-error-source-tuple")
+    yield m(["Error", "Display", "Debug"], "$t:ty", "@DERIVE@ #[display(\"e\")] pub enum @N@ { A($t), B { source: $t }, C }", "::std::fmt::Error", "ty-error-source-enum")
+    yield m(["From"], "$t:ty", "@DERIVE@ #[from($t, i16)] pub struct @N@(pub i64);", "i32", "ty-in-from-list")
+    yield m(["Into"], "$t:ty", "@DERIVE@ #[into($t, i64)] pub struct @N@(pub i32);", "i128", "ty-in-into-list")
+    yield m(["AsRef", "AsMut"], "$t:ty", "@DERIVE@ pub struct @N@ { #[as_ref($t)] #[as_mut($t)] pub a: ::std::vec::Vec<u8> }", "[u8]", "ty-in-as_ref-list")
+    yield m(["Display", "Debug"], "$l:literal", "@DERIVE@ #[display($l, x)] #[debug($l, x)] pub struct @N@ { pub x: i32 }", '"{0}-{0:>4}"', "literal-fragment")
+    yield m(["Display"], "$l:literal", "@DERIVE@ pub enum @N@ { #[display($l, x)] A { x: i32 }, #[display(\"b\")] B }", '"{:?}"', "literal-fragment-variant")
+    yield m(["TryFrom"], "$e:expr", "@DERIVE@ #[try_from(repr)] #[repr(u8)] pub enum @N@ { A = $e, B, C = 9, D }", "1 + 2", "expr-discriminant", std=["::core::fmt::Debug", "::core::cmp::PartialEq"])
+    yield m(["FromStr", "Display", "IsVariant", "Unwrap", "TryUnwrap"], "$a:ident, $b:ident", "@DERIVE@ pub enum @N@ { $a, $b }", "First, r#Second", "ident-variants")
 
 
 def all_items():
